@@ -392,7 +392,13 @@ pub fn decode_fixlen_items<P, D: ParameterizedDecode<P>>(
     let mut sub = Cursor::new(&bytes.get_ref()[initial_position..items_end]);
 
     while sub.position() < length as u64 {
+        let position_before = sub.position();
         decoded.push(D::decode_with_param(decoding_parameter, &mut sub)?);
+        if sub.position() == position_before {
+            // An item that consumes no bytes can never exhaust a non-empty range: without this
+            // check the loop would not terminate.
+            return Err(CodecError::LengthPrefixTooBig(length));
+        }
     }
 
     // Advance outer cursor by the amount read in the inner cursor
